@@ -3,7 +3,9 @@ package checks
 import (
 	"encoding/json"
 	"fmt"
+	cose "github.com/veraison/go-cose"
 	"testing"
+	"verifharness/icose"
 
 	"github.com/veraison/psatoken"
 
@@ -176,7 +178,42 @@ var c14Kind = registerKind("c14", func(in c14In) string {
 			}
 			others[fmt.Sprintf("%s object on which earlier setter calls were refused (#%d)", p, i)] = rc
 		}
+		// objects that an Evidence has handled: attached with SetClaims (and
+		// another claim changed through its exported field afterwards), used
+		// in a signing attempt whose signer failed, signed successfully
+		{
+			full := func() psatoken.IClaims {
+				m := baseValid(p, 0)
+				c, err := m.BuildSetters()
+				if err != nil {
+					panic("VERIF-INFRA: " + err.Error())
+				}
+				return c
+			}
+			a := full()
+			ev := &psatoken.Evidence{}
+			_ = ev.SetClaims(a)
+			switch x := a.(type) {
+			case *psatoken.P1Claims:
+				x.Nonce = nil
+			case *psatoken.P2Claims:
+				x.Nonce = nil
+			}
+			others[p.String()+" object attached with SetClaims whose nonce was then removed"] = a
+			b := full()
+			ev2 := &psatoken.Evidence{}
+			_ = ev2.SetClaims(b)
+			_, _ = ev2.ValidateAndSign(&faultySigner{alg: cose.Algorithm(icose.ES256), mode: "error"})
+			_, _ = ev2.Sign(&faultySigner{alg: cose.Algorithm(icose.ES256), mode: "empty"})
+			others[p.String()+" object on which a signing attempt failed"] = b
+			d := full()
+			ev3 := &psatoken.Evidence{}
+			_ = ev3.SetClaims(d)
+			_, _ = ev3.ValidateAndSign(keyFor(icose.EdDSA, 0).Signer())
+			others[p.String()+" object that was signed"] = d
+		}
 		for what, oc := range others {
+			before, berr := oc.GetSecurityLifeCycle()
 			serr := oc.SetSecurityLifeCycle(v)
 			if (serr == nil) != valid {
 				return fmt.Sprintf("%s: SetSecurityLifeCycle(0x%04x) = %v, want valid=%v", what, v, serr, valid)
@@ -185,8 +222,8 @@ var c14Kind = registerKind("c14", func(in c14In) string {
 			if valid && (gerr != nil || got != v) {
 				return fmt.Sprintf("%s: after SetSecurityLifeCycle(0x%04x) the getter gives %d, %v", what, v, got, gerr)
 			}
-			if !valid && gerr == nil {
-				return fmt.Sprintf("%s: rejected setter left a readable lifecycle %d", what, got)
+			if !valid && ((gerr == nil) != (berr == nil) || (gerr == nil && got != before)) {
+				return fmt.Sprintf("%s: a rejected setter changed what the getter returns: before %d, %v; after %d, %v", what, before, berr, got, gerr)
 			}
 		}
 		// ... and the getter of such objects holding the value by a
